@@ -160,7 +160,6 @@ func (ei *resourceInformer) getCachedObjects() []kemtypes.ObjectAndFilterResult 
 		res = append(res, *obj)
 	}
 	ei.cacheLock.RUnlock()
-	verifhook.Yield("ri.getCachedObjects.betweenCopyAndReset", ei.Namespace, ei.Name)
 
 	// Reset eventBuf if needed.
 	ei.eventBufLock.Lock()
@@ -168,6 +167,7 @@ func (ei *resourceInformer) getCachedObjects() []kemtypes.ObjectAndFilterResult 
 		ei.eventBuf = nil
 	}
 	ei.eventBufLock.Unlock()
+	verifhook.Yield("ri.getCachedObjects.afterRead", ei.Namespace, ei.Name)
 	return res
 }
 
@@ -397,9 +397,9 @@ func (ei *resourceInformer) handleWatchEvent(object interface{}, eventType kemty
 		ei.eventBufLock.Lock()
 		eventCbEnabled = ei.eventCbEnabled
 		ei.eventBufLock.Unlock()
-		verifhook.Yield("ri.handleWatchEvent.afterFlagRead", ei.Namespace, ei.Name)
 
 		if eventCbEnabled {
+			verifhook.Yield("ri.handleWatchEvent.beforePut", ei.Namespace, ei.Name)
 			// Pass event info to callback.
 			ei.putEvent(kubeEvent)
 		} else {
